@@ -100,19 +100,21 @@ inductive Op where
   | deepcopy (t : ObjId)
   /-- one of the six predefined getters (+ model construction from the fresh description) -/
   | getter (k : Nat)
-  /-- `m.fit(data, …)` -/
-  | fit (m : ObjId) (args : List ObjId)
+  /-- `m.fit(data, fit_descriptions)`: `descs` are the caller's fit-description objects, which the
+  code fills in place (`_check_and_fill_fit_desc` assigns into the caller's list and dicts) -/
+  | fit (m : ObjId) (descs : List ObjId) (args : List ObjId)
   deriving Repr, Inhabited
 
 /-- is the op one that must not write anything that exists? -/
 def Op.isPure : Op → Bool
-  | .fit _ _ => false
+  | .fit _ _ _ => false
   | _ => true
 
 /-- declared write footprint among the *existing* objects: the mutable objects reachable from the
-fitted model for `fit`, nothing for every other op (they may only allocate). -/
+fitted model (and from the fit descriptions handed in) for `fit`, nothing for every other op
+(they may only allocate). -/
 def footprint (s : Store) : Op → ObjId → Prop
-  | .fit m _ => fun o => Reach s [m] o ∧ s.isMut o = true
+  | .fit m ds _ => fun o => Reach s (m :: ds) o ∧ s.isMut o = true
   | _ => fun _ => False
 
 /-- the effect respects the declared footprint of the op -/
@@ -124,11 +126,11 @@ def EffWF (s : Store) (e : Effect) : Prop :=
   (∀ w ∈ e.writes, ∀ o' ∈ w.2.refs, o' < s.next + e.allocs.length) ∧
   (∀ ob ∈ e.allocs, ∀ o' ∈ ob.refs, o' < s.next + e.allocs.length)
 
-/-- `fit m` does not capture foreign objects: every reference it stores points to a fresh object
-or to something the model already reached. -/
-def NoCapture (s : Store) (m : ObjId) (e : Effect) : Prop :=
-  (∀ w ∈ e.writes, ∀ o' ∈ w.2.refs, s.next ≤ o' ∨ Reach s [m] o') ∧
-  (∀ ob ∈ e.allocs, ∀ o' ∈ ob.refs, s.next ≤ o' ∨ Reach s [m] o')
+/-- `fit` does not capture foreign objects: every reference it stores points to a fresh object
+or to something its roots (the model, the fit descriptions) already reached. -/
+def NoCapture (s : Store) (fr : List ObjId) (e : Effect) : Prop :=
+  (∀ w ∈ e.writes, ∀ o' ∈ w.2.refs, s.next ≤ o' ∨ Reach s fr o') ∧
+  (∀ ob ∈ e.allocs, ∀ o' ∈ ob.refs, s.next ≤ o' ∨ Reach s fr o')
 
 /-! ### executable counterparts (what the driver evaluates on the harness' id()-graphs) -/
 
@@ -154,7 +156,7 @@ def liveB (s : Store) (roots : List ObjId) : Bool := roots.all (fun r => decide 
 
 /-- executable footprint (list of ids) -/
 def footprintList (s : Store) : Op → List ObjId
-  | .fit m _ => (reachList s [m]).filter s.isMut
+  | .fit m ds _ => (reachList s (m :: ds)).filter s.isMut
   | _ => []
 
 /-- the observed written ids all lie in the declared footprint -/
@@ -170,14 +172,14 @@ def touchedB (s : Store) (root : ObjId) (written : List ObjId) : Bool :=
   written.any (reachList s [root]).contains
 
 /-- mutable objects reachable from both roots -/
-def sharedMut (s : Store) (a b : ObjId) : List ObjId :=
-  ((reachList s [a]).filter (reachList s [b]).contains).filter s.isMut
+def sharedMut (s : Store) (as : List ObjId) (b : ObjId) : List ObjId :=
+  ((reachList s as).filter (reachList s [b]).contains).filter s.isMut
 
-def sharedAny (s : Store) (a b : ObjId) : List ObjId :=
-  (reachList s [a]).filter (reachList s [b]).contains
+def sharedAny (s : Store) (as : List ObjId) (b : ObjId) : List ObjId :=
+  (reachList s as).filter (reachList s [b]).contains
 
-def noCaptureB (s : Store) (m : ObjId) (e : Effect) : Bool :=
-  let r := reachList s [m]
+def noCaptureB (s : Store) (fr : List ObjId) (e : Effect) : Bool :=
+  let r := reachList s fr
   let ok := fun (ob : Obj) => ob.refs.all (fun o' => decide (s.next ≤ o') || r.contains o')
   e.writes.all (fun w => ok w.2) && e.allocs.all ok
 
